@@ -33,6 +33,8 @@ func (e errorString) Error() string {
 
 type plainError string
 
+func (e plainError) RuntimeError() {}
+
 func (e plainError) Error() string {
 	return string(e)
 }
